@@ -55,4 +55,6 @@ VARIANTS += [
       rule='C15-SAMEGUIDE', key='add_failures'),
     M('C15', 'refactor-guide-renamed', E(CF, "guide = expected_path or actual_path", "guide = expected_path or actual_path  # same for both files"), kind='refactor'),
     M('C15', 'binary-offset-off-by-one', E('tdda/referencetest/checkfiles.py', "'First difference at byte offset %d, %s.'\n                % (binaryinfo.byteoffset, lengthinfo),", "'First difference at byte offset %d, %s.'\n                % (binaryinfo.byteoffset + 1, lengthinfo),"), rule='C15-ARTEFACTS', key='check_binary_file'),
+    M('C15', 'defaults-stored-on-the-base-class', E(RTF, "                cls.tmp_dir = kwargs[k]", "                ReferenceTest.tmp_dir = kwargs[k]"),
+      rule='C15-DEFAULTS', key='set_defaults'),
 ]
